@@ -15,6 +15,7 @@ from . import smt
 from .terms import Sym, Unsupported
 
 VERIF = os.path.dirname(os.path.dirname(os.path.abspath(__file__)))
+OUT = os.environ.get("PYVC_OUT_DIR") or VERIF
 
 GLOBAL_ASSUMPTIONS = {
     "A1": "A1 real arithmetic: Python float/complex arithmetic is treated as exact arithmetic over R/C (no rounding, overflow, NaN)",
@@ -86,10 +87,19 @@ class Check:
     def eq(self, name, lhs, rhs=0, *, fn=None, goal=None, assumptions=(), replay=None, ranges=None):
         """obligation: lhs == rhs identically (under positivity assumptions used only for ln-splitting)."""
         t0 = time.time()
+        d = T.lift(lhs) - T.lift(rhs) if not _is_zero(rhs) else T.lift(lhs)
+        # 1. numeric falsification at high precision (a refutation with a witness; never a proof)
+        wit = falsify(d, self.rng, ranges)
+        if wit is not None:
+            return self.record(name, "refuted", "mp-falsify", time.time() - t0, fn, goal,
+                               detail=f"lhs - rhs = {wit['residual']} (relative {wit['relative']}) at {wit['env']}", witness=wit, replay=replay)
+        # 2. exact proof
         try:
             ctx = P.NFContext(assumptions, prover=smt.prove if assumptions else None)
-            d = T.lift(lhs) - T.lift(rhs) if not _is_zero(rhs) else T.lift(lhs)
-            ok, res = P.prove_zero(d, ctx)
+            with time_limit(NF_TIMEOUT[0]):
+                ok, res = P.prove_zero(d, ctx)
+        except TimeoutError:
+            return self.record(name, "undischarged", "poly-NF", time.time() - t0, fn, goal, f"normal form not reached within {NF_TIMEOUT[0]} s", replay=replay)
             for law in ctx.laws_used:
                 self.trust("atom law: " + law)
         except Unsupported as e:
@@ -172,7 +182,7 @@ class Check:
         n_obl = len(self.obls)
         n_dis = sum(1 for o in self.obls if o["verdict"] == "discharged")
         # replay files
-        os.makedirs(os.path.join(VERIF, "replays"), exist_ok=True)
+        os.makedirs(os.path.join(OUT, "replays"), exist_ok=True)
         lines = []
         for hit, o in known_hits:
             pass
@@ -186,7 +196,7 @@ class Check:
         exit_code = 0
         reported = 0
         for o in violations:
-            path = os.path.join(VERIF, "replays", f"{self.pid}_{_safe(o['name'])}.json")
+            path = os.path.join(OUT, "replays", f"{self.pid}_{_safe(o['name'])}.json")
             rep = dict(property=self.pid, obligation=o["name"], function=o.get("fn"), verdict=o["verdict"], backend=o["backend"],
                        goal=o.get("goal"), verifier_output=o.get("detail"), witness=o.get("witness"), replay=o.get("replay"),
                        tier=self.tier, repo_src=hook.REPO_SRC[0])
@@ -262,14 +272,66 @@ class Check:
             assumptions=[GLOBAL_ASSUMPTIONS[k] for k in ("A1", "A2", "A3", "A4", "A5")] + self.assumptions,
             wall_s=round(wall, 3), violations=len(violations),
         )
-        os.makedirs(os.path.join(VERIF, "evidence"), exist_ok=True)
-        with open(os.path.join(VERIF, "evidence", f"{self.pid}.json"), "w") as f:
+        os.makedirs(os.path.join(OUT, "evidence"), exist_ok=True)
+        with open(os.path.join(OUT, "evidence", f"{self.pid}.json"), "w") as f:
             json.dump(ev, f, indent=1, default=_js)
         for ln in lines:
             print(ln)
         print(f"{self.pid} [{self.tier}] obligations={n_obl} discharged={n_dis} known-findings={len(known_hits)} "
               f"violations={len(violations)} errors={len(errors)} wall={wall:.1f}s exit={exit_code}")
         return exit_code
+
+
+NF_TIMEOUT = [int(os.environ.get("PYVC_NF_TIMEOUT", "180"))]
+
+
+class time_limit:
+    """SIGALRM based wall-clock limit (main thread only)."""
+
+    def __init__(self, secs):
+        self.secs = secs
+
+    def __enter__(self):
+        import signal
+
+        def handler(signum, frame):
+            raise TimeoutError()
+
+        self.old = signal.signal(signal.SIGALRM, handler)
+        signal.setitimer(signal.ITIMER_REAL, self.secs)
+
+    def __exit__(self, *a):
+        import signal
+
+        signal.setitimer(signal.ITIMER_REAL, 0)
+        signal.signal(signal.SIGALRM, self.old)
+        return False
+
+
+def falsify(expr, rng, ranges=None, points=3, digits=60, rel=1e-25):
+    """Try to show expr != 0 by evaluation at random rational points (60 digits).  Returns a witness or None.
+    A point counts only if the residual exceeds `rel` times the largest summand (so rounding cannot fake it)."""
+    vs = sorted(T.free_vars(expr))
+    ranges = ranges or {}
+    for _ in range(points):
+        env = {}
+        for v in vs:
+            lo, hi = ranges.get(v, ranges.get("*", (0.1, 2.0)))
+            if isinstance(lo, int) and isinstance(hi, int):
+                env[v] = Fraction(rng.randint(lo, hi))
+            else:
+                env[v] = Fraction(round(rng.uniform(lo, hi) * 10**6), 10**6)
+        try:
+            val, scale = T.magnitude(expr, env, digits)
+        except (ZeroDivisionError, ValueError, OverflowError, Unsupported, TypeError):
+            continue
+        except Exception:
+            continue
+        if abs(val) > rel * scale:
+            import mpmath as mp
+
+            return dict(env={k: float(v) for k, v in env.items()}, residual=mp.nstr(val, 12), relative=mp.nstr(abs(val) / scale, 5))
+    return None
 
 
 def _is_zero(x):
